@@ -249,7 +249,7 @@ impl Ctx {
                         return err("encmsg: unexpected container");
                     }
                     let n = b.len();
-                    b.truncate(n - 38); // aad = bytes(36) holding #6.40001(h'32 bytes')
+                    b.truncate(n - 39); // aad = h'..37 bytes..' holding the CBOR of #6.40001(h'32 bytes'): 58 25 + 37
                     if tag_of(&t[1]) == "nodigest" {
                         b[0] = 0x83;
                     } else {
@@ -304,7 +304,8 @@ impl Ctx {
                     25 => (u16::from_be_bytes([b[1], b[2]]) as u64, 3),
                     26 => (u32::from_be_bytes([b[1], b[2], b[3], b[4]]) as u64, 5),
                     27 => (u64::from_be_bytes([b[1], b[2], b[3], b[4], b[5], b[6], b[7], b[8]]), 9),
-                    _ => return err("quirk: head"),
+                    // already an indefinite-length / non-canonical item (a quirk of a quirk): it stays non-deterministic
+                    _ => return Ok(b),
                 };
                 let mut out = vec![];
                 if q == "indefinite" && (major == 4 || major == 5) {
